@@ -233,6 +233,10 @@ func c17(r *core.Run) {
 						}
 						return false
 					}, false)
+					// the key tested for membership is the key appended (as terms over the call arguments)
+					if ct, at := containsKeyTerm(p, caller, call, ap); ct != "" || at != "" {
+						r.Check(ct == at && ct != "", "C17/R3", core.FnName(caller)+":contains-key=appended-key", p.InstrPos(call), "membership test and append use the same key term", "the prover list is tested for one key ("+ct+") but another ("+at+") is appended: the same prover can be listed twice under two spellings")
+					}
 					bad := core.PathExists(caller, p.PassEdges(caller, anyOf(g, p.FlagImplies(caller, g))), call, nil)
 					r.Check(!bad, "C17/R3", core.FnName(caller)+":append-only-if-absent", p.InstrPos(call), "appender call behind containsProver(...)=false", "a prover can be appended to a file that already lists it (duplicate entry)")
 				}
@@ -363,4 +367,76 @@ func containsPredicate(p *core.Program, fn *ssa.Function) bool {
 		}
 	}
 	return nTrue > 0
+}
+
+// containsKeyTerm: term of the key compared by the contains predicate called in `caller`, and term of the element the
+// appender appends, both expressed over the caller's values (callee parameters named by the call arguments).
+func containsKeyTerm(p *core.Program, caller *ssa.Function, appendCall ssa.CallInstruction, appender *ssa.Function) (string, string) {
+	tb := core.NewTermBuilder(p)
+	bind := func(cal *ssa.Function, call ssa.CallInstruction) *core.TermBuilder {
+		sub := core.NewTermBuilder(p)
+		c := call.Common()
+		var actuals []ssa.Value
+		if c.IsInvoke() {
+			actuals = append(actuals, c.Value)
+		}
+		actuals = append(actuals, c.Args...)
+		for i, prm := range cal.Params {
+			if i < len(actuals) {
+				sub.Names[prm] = tb.Term(actuals[i])
+			}
+		}
+		return sub
+	}
+	containsTerm := ""
+	allInstrs(caller, func(in ssa.Instruction) {
+		c, ok := in.(*ssa.Call)
+		if !ok {
+			return
+		}
+		for _, cal := range p.Callees(c) {
+			if !containsPredicate(p, cal) {
+				continue
+			}
+			sub := bind(cal, c)
+			// the value compared with the list elements
+			for _, b := range cal.Blocks {
+				ifi, ok := b.Instrs[len(b.Instrs)-1].(*ssa.If)
+				if !ok {
+					continue
+				}
+				ca := p.NormCond(ifi)
+				if ca.Kind != "eq" {
+					continue
+				}
+				for _, side := range []ssa.Value{ca.X, ca.Y} {
+					if !p.ProvAt(side, "", ifi).HasParam(cal, 0, ".Proofs") {
+						containsTerm = sub.Term(side)
+					}
+				}
+			}
+		}
+	})
+	appendTerm := ""
+	sub := bind(appender, appendCall)
+	allInstrs(appender, func(in ssa.Instruction) {
+		st, ok := in.(*ssa.Store)
+		if !ok {
+			return
+		}
+		fa, ok := st.Addr.(*ssa.FieldAddr)
+		if !ok || core.FieldName(fa.X.Type(), fa.Field) != "Proofs" {
+			return
+		}
+		if call, ok := st.Val.(*ssa.Call); ok {
+			if bi, ok := call.Call.Value.(*ssa.Builtin); ok && bi.Name() == "append" {
+				for _, el := range core.VarArgs(call.Call.Args[1]) {
+					if el != nil {
+						appendTerm = sub.Term(el)
+					}
+				}
+			}
+		}
+	})
+	return containsTerm, appendTerm
 }
